@@ -4,6 +4,7 @@ import (
 	"fmt"
 	"go/types"
 	"math/big"
+	"sort"
 	"strings"
 
 	"gosmt/sym"
@@ -55,8 +56,7 @@ func visibleIntrinsic(m *Machine, wl *worklist, it *Item, fn *ssa.Function, args
 func (m *Machine) nilErr() Value { return Iface{} }
 
 func (m *Machine) newError(tag string) Iface {
-	m.errCount++
-	id := m.IntC(int64(1000 + m.errCount))
+	id := m.IntC(int64(1000 + m.eventID("err:"+tag)))
 	return Iface{[]IfaceAlt{{G: m.C.True, S: "error", V: id}}}
 }
 
@@ -113,16 +113,23 @@ func (m *Machine) drain(it *Item, r Iface) Text {
 			st := a.T.(*types.Pointer).Elem().Underlying().(*types.Struct)
 			slT := st.Field(0).Type()
 			sl := m.Load(sub, p, slT).(SliceV)
-			n, ok := sl.Len.Int64()
-			if !ok {
-				m.fail("drain: multiReader with symbolic part count")
+			vals := m.possibleInts(sub, sl.Len)
+			if len(vals) == 0 {
+				m.fail("drain: multiReader with unbounded symbolic part count: len=%s", m.C.String(sl.Len))
 			}
+			n := vals[len(vals)-1]
 			t = m.EmptyText()
 			et := slT.Underlying().(*types.Slice).Elem()
 			for i := int64(0); i < n; i++ {
-				ep := m.offsetPtr(sub, sl.Base, m.IntC(i), 1, sl.Len)
-				part := m.Load(sub, ep, et).(Iface)
-				t = m.Concat(t, m.drain(sub, part))
+				gi := m.C.And(g, m.slt(m.IntC(i), sl.Len))
+				if gi.IsFalse() {
+					continue
+				}
+				si := &Item{G: gi, F: it.F, Gor: it.Gor, Clock: it.Clock}
+				ep := m.offsetPtr(si, sl.Base, m.IntC(i), 1, sl.Len)
+				part := m.Load(si, ep, et).(Iface)
+				d := m.Concat(t, m.drain(si, part))
+				t = m.Merge(m.slt(m.IntC(i), sl.Len), d, t).(Text)
 			}
 			m.Store(sub, p, slT, SliceV{Ptr{}, m.IntC(0), m.IntC(0)})
 		default:
@@ -160,7 +167,7 @@ func registerIntrinsics(m *Machine) {
 	I["time.Now"] = inline(func(m *Machine, it *Item, a []Value) Value {
 		tt := m.lookupType("time", "Time")
 		v := m.ZeroValue(tt).(StructV)
-		now := c.Fresh("now", m.intSort())
+		now := m.Fresh("now", m.intSort())
 		if m.lastNow != nil {
 			m.Assume(m.sle(m.lastNow, now), "clock is non-decreasing")
 		} else {
@@ -171,7 +178,7 @@ func registerIntrinsics(m *Machine) {
 		return v
 	})
 	I["time.Since"] = inline(func(m *Machine, it *Item, a []Value) Value {
-		d := c.Fresh("since", m.intSort())
+		d := m.Fresh("since", m.intSort())
 		m.Assume(c.And(m.sle(m.IntC(0), d), m.sle(d, m.IntC(1<<62))), "time.Since returns a non-negative duration")
 		m.logGhost("time.Since", d)
 		return d
@@ -358,8 +365,8 @@ func registerIntrinsics(m *Machine) {
 		m.obligePanic(it, m.sle(y, hi), "math/bits.Div64: quotient overflow or division by zero")
 		n := m.add(c.Bin(sym.OpMul, hi, c.IntBig(two64)), lo)
 		// q, r with n = q*y + r, 0 <= r < y  (relational: avoids non-linear div)
-		q := c.Fresh("div64q", sym.SInt)
-		r := c.Fresh("div64r", sym.SInt)
+		q := m.Fresh("div64q", sym.SInt)
+		r := m.Fresh("div64r", sym.SInt)
 		m.AssumeUnder(c.And(it.G, m.slt(hi, y)), c.And(c.Eq(n, m.add(c.Bin(sym.OpMul, q, y), r)), m.sle(m.IntC(0), r), m.slt(r, y), m.sle(m.IntC(0), q)), "math/bits.Div64: n = q*y + r, 0 <= r < y")
 		return Tuple{q, r}
 	})
@@ -386,22 +393,27 @@ func (m *Machine) logGhostV(tag string, vs []Value) {
 
 func (m *Machine) newCtx(it *Item, parent *Iface, cancellable bool) Iface {
 	c := m.C
-	m.nextObj++
-	o := &Object{ID: m.nextObj, Kind: KCtx, Site: "ctx", Name: "ctx"}
 	var done Value = Ptr{}
 	if cancellable {
 		ch := m.NewChan(it, types.NewStruct(nil, nil), m.IntC(0), "ctx.done")
 		done = single(ch, 0, c)
 	}
-	m.heap.Init(o, []Value{done})
-	m.NObjects++
+	o := m.canonObject(Object{Kind: KCtx, Site: "ctx", Name: "ctx"}, []Value{done})
 	if parent != nil {
 		for _, a := range parent.Alts {
 			if a.S != "ctx" {
 				m.fail("context.WithCancel on non-modelled context")
 			}
 			for _, pa := range a.V.(Ptr).Alts {
-				pa.Obj.Children = append(pa.Obj.Children, o)
+				dup := false
+				for _, ch := range pa.Obj.Children {
+					if ch == o {
+						dup = true
+					}
+				}
+				if !dup {
+					pa.Obj.Children = append(pa.Obj.Children, o)
+				}
 				// a child of an already cancelled parent is born cancelled
 				pd := m.heap.Get(pa.Obj, 0).(Ptr)
 				for _, pda := range pd.Alts {
@@ -674,4 +686,48 @@ func (m *Machine) globalObj(g *ssa.Global) *Object {
 		}
 	}
 	return o
+}
+
+// possibleInts returns the sorted constant values t can take under it.G, decided by the pruning solver over
+// the constant leaves of t's ite tree (nil if t has non-constant leaves or too many).
+func (m *Machine) possibleInts(it *Item, t T) []int64 {
+	if k, ok := t.Int64(); ok {
+		return []int64{k}
+	}
+	t = m.Restrict(it.G, t).(T)
+	if k, ok := t.Int64(); ok {
+		return []int64{k}
+	}
+	seen := map[int64]bool{}
+	visited := map[int]bool{}
+	okAll := true
+	var walk func(x T)
+	walk = func(x T) {
+		if !okAll || visited[x.ID] {
+			return
+		}
+		visited[x.ID] = true
+		if k, ok := x.Int64(); ok {
+			seen[k] = true
+			return
+		}
+		if x.Op != sym.OpIte || len(visited) > 5000 || len(seen) > 64 {
+			okAll = false
+			return
+		}
+		walk(x.Args[1])
+		walk(x.Args[2])
+	}
+	walk(t)
+	if !okAll {
+		return nil
+	}
+	var out []int64
+	for k := range seen {
+		if m.Feasible == nil || m.Feasible(m.C.And(it.G, m.C.Eq(t, m.IntC(k)))) {
+			out = append(out, k)
+		}
+	}
+	sort.Slice(out, func(i, j int) bool { return out[i] < out[j] })
+	return out
 }
